@@ -1,6 +1,7 @@
 package main
 
 import (
+	"verif/harness/internal/srcsel"
 	"fmt"
 	"go/ast"
 	"go/parser"
@@ -19,7 +20,7 @@ func main() {
 			return nil
 		}
 		n := info.Name()
-		if !strings.HasSuffix(n, ".go") || strings.HasSuffix(n, "_test.go") || strings.HasPrefix(n, "verif_export") || n == "genalphabet.go" { return nil }
+		if !strings.HasSuffix(n, ".go") || !srcsel.Analysed(path) { return nil }
 		f, err := parser.ParseFile(fset, path, nil, 0)
 		if err != nil { return nil }
 		for _, d := range f.Decls {
